@@ -625,6 +625,9 @@ func refOf(v tv) (string, bool) {
 		return fmt.Sprintf("(pref %s)", v.term), true
 	case *types.Map, *types.Chan:
 		return v.term, true
+	case *types.Interface:
+		// the object a boxed pointer refers to (interfaces holding non-pointers have no object: reference 0)
+		return fmt.Sprintf("(ite (is-bPtr (ibox %s)) (pref (ubPtr (ibox %s))) 0)", v.term, v.term), true
 	}
 	return "", false
 }
